@@ -3,9 +3,12 @@
 
   Records handled here (everything else of the family uses the generic records of Driver/Funcs.lean):
 
-    pre <OP> <kindA> <kindB> <kindC> <sameDomain> -> ok | err <CODE> | skipped <TAG> | crash <why>
-        one row of the constructor decision table; compared with `Errors.precheck` (the row's outcome)
-        and with `Errors.crashTag` (which rows the harness must steer away from, and why).
+    pre <OP> <kindA> <kindB> <kindC> <domains> -> ok applied | err <CODE> | crash <why>
+        one row of the constructor decision table; compared with `Errors.precheck`.  <domains> = 1 | a | 0
+        (`Errors.Doms.ofTok`).  An accepted row must have been COMPUTED (`ok applied`): no row is withheld
+        (the records `ok built <TAG>` / `skipped <TAG>` of earlier revisions, which steered away from crash
+        findings F1..F6, are gone and would be reported as a parse DIFF).  `crash` only comes from the
+        development aid `--isolate 1`.
     misuse <scenario> <outcome...>
         scripted misuse of the non-operation API; compared with `Errors.misuseExpect`.
     fit <what> <value> -> ok | err <CODE>
@@ -43,45 +46,29 @@ def parseKind (tok : String) : Option ForestKind :=
 def stepPre (s : St) (ln : Nat) (toks : List String) : St :=
   match toks with
   | "pre" :: opn :: ta :: tb :: tc :: sd :: "->" :: outcome =>
-    match OpKind.ofName opn, parseKind ta with
-    | some op, some ka =>
+    match OpKind.ofName opn, parseKind ta, Doms.ofTok sd with
+    | some op, some ka, some dp =>
       let kb := (parseKind tb).getD ka
       let kc := (parseKind tc).getD ka
-      let same := sd == "1"
+      let same := dp.allSame
       let s := s.tick
       if !(ka.legal && kb.legal && kc.legal) then s.diff ln "pre" s!"illegal-kind in {opn} {ta} {tb} {tc}" else
-      let exp := precheck op ka kb kc same
-      let tag := crashTag op ka kb kc same
+      let exp := precheck op ka kb kc dp
       let expS := match exp with | none => "ok" | some e => s!"err {e.name}"
       let row := s!"{opn} {ta} {tb} {tc} {sd}"
       let s := s.bump (if (decide (compatible op ka kb kc same)) then "pre.compatible"
                        else if lax op ka kb kc same then "pre.lax" else "pre.rejected")
       match outcome with
       | ["ok", "applied"] =>
-        let s := if tag.isSome then s.diff ln "steer" s!"row=[{row}] expected=built:{tag.getD ""} got=applied" else s
         if exp == none then s.bump "pre.ok.applied"
         else s.diff ln "error-code" s!"row=[{row}] expected={expS} got=ok"
-      | ["ok", "built", t] =>
-        let s := if tag == some t then s else s.diff ln "steer" s!"row=[{row}] expected={tag.getD "applied"} got=built:{t}"
-        if exp == none then s.bump s!"pre.ok.built.{t}"
-        else s.diff ln "error-code" s!"row=[{row}] expected={expS} got=ok"
-      | "ok" :: "probed" :: _ =>
-        if exp == none then s.bump "pre.ok.probed"
-        else s.diff ln "error-code" s!"row=[{row}] expected={expS} got=ok"
-      | "err" :: _ :: "probed" :: _ =>
-        -- probe mode: the accepted misuse was computed in a forked child and ended in a run-time error
-        s.bump "pre.probe.err"
       | ["err", code] =>
-        let s := if tag.isSome then s.diff ln "steer" s!"row=[{row}] expected=skipped:{tag.getD ""} got=executed" else s
         if exp.map ErrCode.name == some code then s.bump s!"pre.{code}"
         else s.diff ln (if exp == none then "unexpected-error" else "error-code") s!"row=[{row}] expected={expS} got=err:{code}"
-      | ["skipped", t] =>
-        if tag == some t then s.bump s!"pre.skipped.{t}"
-        else s.diff ln "steer" s!"row=[{row}] expected={tag.getD "executed"} got=skipped:{t}"
       | "crash" :: why =>
-        s.diff ln "crash" s!"row=[{row}] expected={expS} got=crash:{" ".intercalate why} finding={tag.getD "NEW"}"
+        s.diff ln "crash" s!"row=[{row}] expected={expS} got=crash:{" ".intercalate why}"
       | _ => s.diff ln "parse" s!"bad-pre-outcome {outcome}"
-    | _, _ => s.diff ln "parse" s!"bad-pre-row {opn} {ta}"
+    | _, _, _ => s.diff ln "parse" s!"bad-pre-row {opn} {ta} {sd}"
   | _ => s.diff ln "parse" "bad-pre-record"
 
 /-- one-sided recount + canonical form -/
